@@ -7,6 +7,7 @@ from .rules import ls as LS
 from .rules import ab as AB
 from .rules import tj as TJ
 from .rules import ps as PS
+from .rules import th as TH
 
 TRUST = ('trusted: the CPython parser (ast), the callee resolver of sa/model.py (receiver roles, '
          'unique method names), Python list/str/re semantics as encoded in the rules; ')
@@ -130,6 +131,23 @@ prop('C15',
      'static analysis: interprocedural taint analysis with sanitiser and validated-at-source '
      'keys, try/except coverage, affine clamp proofs with min/max case splits',
      'DESIGN.md 3.4, 3.2 (AB2), 4 C15')
+
+prop('C16',
+     [TH.th1, TH.th2],
+     'escaping exactly once for all sources the property names, by a three-valued taint '
+     '(raw / escaped-or-markup / mixed) through concatenations, helper functions, re.sub '
+     'callbacks and result tuples; protect_html checked as a table (TH1); each match '
+     'highlighted exactly once, in place or in the overlap list, with the source tiled from a '
+     'cursor without gap or duplication - path-sensitive symbolic evaluation of the region '
+     'loop (TH2/LS2)',
+     'decides the escaping clause and the each-match-once / tiling clauses; not decided: '
+     'line-number alignment of the table and the regular expressions that keep <span> inside '
+     'one line',
+     'sources are exactly those C16 names (source text, message, suggestion, context, rule '
+     'id); URL and file name are reported as by-catch only',
+     'static analysis: interprocedural string-taint analysis with sanitiser + path-sensitive '
+     'symbolic evaluation of cursor and accumulators',
+     'DESIGN.md 3.4 (TH1, TH2), 3.2 (LS2), 4 C16')
 
 prop('C17',
      [PS.ps1, PS.ps2, PS.ps3],
